@@ -1,0 +1,12 @@
+//go:build verif
+
+package x509
+
+// Verification hooks for property C09 (hostname matching): thin wrappers over
+// the unexported helpers of verify.go. Built only with -tags verif.
+
+func ZVToLowerCaseASCII(in string) string { return toLowerCaseASCII(in) }
+
+func ZVMatchHostnames(pattern, host string) bool { return matchHostnames(pattern, host) }
+
+func (c *Certificate) ZVHasSANExtension() bool { return c.hasSANExtension() }
